@@ -89,6 +89,8 @@ class MDCPDP(Adapter):
         if tier == "quick":
             row = [(1, "minsum", 4, "L2"), (0, "minmax", 4, "L1"), (1, "lateness", 4, "L2"), (0, "lateness", 1, "L1")]
             bat = [(1, "minsum", 4, "L2"), (0, "minmax", 4, "L1")] if (nd, P) != (2, 1) else []
+            # different lateness weights in ONE real batch (same group): per-row reads of td["lateness_weight"]
+            bat = bat + [(1, "lateness", 4, "L2"), (1, "lateness", 1, "L2")]
             if nd == 3:
                 row, bat = row[:2], []
             return [m + ("row",) for m in row] + [m + ("batch",) for m in bat]
